@@ -442,7 +442,13 @@ func ruleCP(w *World, r *Report) {
 	}
 	// CP3: items are read with their values and set into the destination unchanged
 	okMin, okVisit, okSet := false, false, false
-	for _, ff := range family(fn) {
+	// the visitor may be a closure of CopyTo or a method handed over as a method value
+	visitors := boundMethodsPassedIn(fn)
+	isVisitor := map[*ssa.Function]bool{}
+	for _, v := range visitors {
+		isVisitor[v] = true
+	}
+	for _, ff := range append(family(fn), visitors...) {
 		eachInstr(ff, func(in ssa.Instruction) {
 			c, ok := in.(*ssa.Call)
 			if !ok {
@@ -460,7 +466,7 @@ func ruleCP(w *World, r *Report) {
 					okVisit = true
 				}
 			case "(*Collection).SetItem":
-				if p, isP := c.Common().Args[1].(*ssa.Parameter); isP && p.Parent() == ff && ff.Parent() != nil {
+				if p, isP := c.Common().Args[1].(*ssa.Parameter); isP && p.Parent() == ff && (ff.Parent() != nil || isVisitor[ff]) {
 					okSet = true
 				}
 			}
@@ -468,8 +474,8 @@ func ruleCP(w *World, r *Report) {
 	}
 	r.Check(okMin && okVisit && okSet, rule, "(*Store).CopyTo › copies every item with its value", w.Pos(fn.Pos()), "MinItem(true); VisitItemsAscendEx(min.Key, true, …); dst.SetItem(the visited item)", "CopyTo does not read items with values from the smallest key on, or does not set the visited item itself into the destination")
 	// the visitor keeps going unless an error occurred
-	for _, cl := range fn.AnonFuncs {
-		if len(cl.Params) != 2 {
+	for _, cl := range append(append([]*ssa.Function{}, fn.AnonFuncs...), visitors...) {
+		if len(cl.Params) != 2 && !(isVisitor[cl] && len(cl.Params) == 3) {
 			continue
 		}
 		okStop := true
@@ -513,7 +519,7 @@ func init() {
 			if fn == nil {
 				return
 			}
-			for _, ff := range family(fn) {
+			for _, ff := range append(family(fn), boundMethodsPassedIn(fn)...) {
 				for _, fc := range w.fallibleCalls(ff) {
 					w.checkErrorFlow(r, "E1c", fc)
 				}
@@ -536,3 +542,42 @@ func (s *Store) ZzCtlCallUnguarded(c *Collection, i *Item) { s.callbacks.ItemAdd
 
 func (t *Collection) ZzCtlNewItem(k []byte) *Item { return &Item{Key: k} } // bypasses ItemAlloc
 `
+
+// boundMethodsPassedIn: library methods handed to a call inside fn as method values
+// (`x.visit` passed where a visitor function is expected).  go/ssa represents the value as
+// a closure over a synthetic wrapper that calls the method.
+func boundMethodsPassedIn(fn *ssa.Function) []*ssa.Function {
+	var out []*ssa.Function
+	seen := map[*ssa.Function]bool{}
+	for _, ff := range family(fn) {
+		eachInstr(ff, func(in ssa.Instruction) {
+			c, ok := in.(ssa.CallInstruction)
+			if !ok {
+				return
+			}
+			for _, a := range c.Common().Args {
+				v := a
+				if ct, isCT := v.(*ssa.ChangeType); isCT {
+					v = ct.X
+				}
+				mc, isMC := v.(*ssa.MakeClosure)
+				if !isMC {
+					continue
+				}
+				wf, _ := mc.Fn.(*ssa.Function)
+				if wf == nil || wf.Synthetic == "" || !strings.Contains(wf.Synthetic, "bound") {
+					continue
+				}
+				eachInstr(wf, func(x ssa.Instruction) {
+					if cc, isC := x.(ssa.CallInstruction); isC {
+						if m := cc.Common().StaticCallee(); m != nil && m.Blocks != nil && !seen[m] {
+							seen[m] = true
+							out = append(out, m)
+						}
+					}
+				})
+			}
+		})
+	}
+	return out
+}
